@@ -155,7 +155,7 @@ def corrmtx(x_input, m, method='autocorrelation'):
         x = x_input.copy()
 
 
-    if x.dtype == complex:
+    if numpy.iscomplexobj(x):
         complex_type = True
     else:
         complex_type = False
